@@ -310,6 +310,13 @@ def execute(arg):
                 if f not in RAISES:
                     notes.append("%s raised %s: %s" % (f, type(exc).__name__, exc))
             trace.append({"op": op, "f": f, "res": w.fingerprint(out), "pre": pre, "post": w.snapshot(), "errpre": epre, "errpost": w.err_id()})
+        elif kind in ("mutate", "mutate_inplace") and (w.obj[st[1]].exps.shape != w.ptab[st[1]][st[2] - 1][0].shape
+                                                       or w.obj[st[1]].coeffs.shape != w.ptab[st[1]][st[2] - 1][1].shape):
+            # the shell no longer has the shape it was built with: an earlier, REJECTED request has changed it
+            return {"n": n, "trace": trace, "notes": notes, "steps": steps, "init": init,
+                    "crash": "before step %s the shell %s holds exponents of shape %s and coefficients of shape %s (built with %s and %s): a rejected "
+                             "request has modified it" % (st, st[1], w.obj[st[1]].exps.shape, w.obj[st[1]].coeffs.shape,
+                                                          w.ptab[st[1]][st[2] - 1][0].shape, w.ptab[st[1]][st[2] - 1][1].shape)}
         elif kind == "mutate":
             s, p2 = st[1], st[2]
             ex, co = w.ptab[s][p2 - 1]
@@ -586,6 +593,9 @@ def run(pid, tier, seed, only_case=None):
                           {"module": "c19", "case": {"steps": behaviours[n]}})
             traces.append([])
             continue
+        if r.get("crash"):
+            ctx.violation({"function": "behaviour", "kind": "object changed by a rejected request"}, "behaviour %d: %s" % (n, r["crash"]),
+                          {"module": "c19", "case": {"steps": behaviours[n]}})
         tr = []
         for ev in r["trace"]:
             e2 = dict(ev)
